@@ -6,6 +6,7 @@ dump, then z3 with another seed).
 from __future__ import annotations
 
 import ast
+from fractions import Fraction
 import copy
 import os
 import subprocess
@@ -236,7 +237,11 @@ class Explorer:
         if k == 'none':
             return v is None
         if k == 'obj':
-            return isinstance(v, SObj) and v.cls is not None and self.index.is_subclass(v.cls, t[1])
+            if isinstance(v, SObj):
+                return v.cls is not None and self.index.is_subclass(v.cls, t[1])
+            if v is None or isinstance(v, (bool, int, float, str, Fraction, SymFloat, tuple, list, dict)) or is_z3(v):
+                return False
+            return True      # other engine value kinds (keys, symbolic containers, ADTs ...): typed by their contracts
         if k == 'enum':
             return isinstance(v, EnumV) and v.cls == t[1]
         return True
@@ -300,7 +305,11 @@ class Explorer:
         if k == 'union':
             return any(self._fits(v, a) for a in t[1])
         if k == 'obj':
-            return isinstance(v, SObj) and v.cls is not None and self.index.is_subclass(v.cls, t[1])
+            if isinstance(v, SObj):
+                return v.cls is not None and self.index.is_subclass(v.cls, t[1])
+            if v is None or isinstance(v, (bool, int, float, str, Fraction, SymFloat, tuple, list, dict)) or is_z3(v):
+                return False
+            return True      # other engine value kinds (keys, symbolic containers, ADTs ...): typed by their contracts
         if k == 'none':
             return v is None
         if k in ('int', 'bool', 'float', 'frac', 'fconst', 'enum'):
